@@ -53,7 +53,7 @@ func SetMaxConcurrentMicroTasks(n int) {
 func (m *Module) StartHighPriorityMicroTask(name string, fn func(context.Context) error) {
 	go func() {
 		err := m.RunHighPriorityMicroTask(name, fn)
-		if err != nil {
+		if err != nil && m != nil { // A nil module was already reported by the Run function.
 			log.Warningf("%s: microtask %s failed: %s", m.Name, name, err)
 		}
 	}()
@@ -67,7 +67,7 @@ func (m *Module) StartHighPriorityMicroTask(name string, fn func(context.Context
 func (m *Module) StartMicroTask(name string, maxDelay time.Duration, fn func(context.Context) error) {
 	go func() {
 		err := m.RunMicroTask(name, maxDelay, fn)
-		if err != nil {
+		if err != nil && m != nil { // A nil module was already reported by the Run function.
 			log.Warningf("%s: microtask %s failed: %s", m.Name, name, err)
 		}
 	}()
@@ -81,7 +81,7 @@ func (m *Module) StartMicroTask(name string, maxDelay time.Duration, fn func(con
 func (m *Module) StartLowPriorityMicroTask(name string, maxDelay time.Duration, fn func(context.Context) error) {
 	go func() {
 		err := m.RunLowPriorityMicroTask(name, maxDelay, fn)
-		if err != nil {
+		if err != nil && m != nil { // A nil module was already reported by the Run function.
 			log.Warningf("%s: microtask %s failed: %s", m.Name, name, err)
 		}
 	}()
